@@ -70,6 +70,12 @@ def oracle_roundtrip(case, ctx):
     A = np.array(case["values"], dtype=float)
     n, t = A.shape
     X = pd.DataFrame({"dim_0": [pd.Series(A[i].copy()) for i in range(n)]})
+    rl = case.get("row_labels")
+    if rl:
+        # a shuffled / sliced panel that was not re-indexed: instances are the ROWS, in order
+        X.index = pd.Index({"shifted": list(range(3, 3 + n)), "reversed": list(range(n - 1, -1, -1)),
+                            "shuffled": [(i + 1) % n for i in range(n)]}[rl])
+        ctx.label("row_labels_%s" % rl)
     labels = case["labels"]
     kw = {}
     if labels is not None:
@@ -265,12 +271,13 @@ def rt_cases(draw):
         labels = [pool[draw(st.integers(0, k - 1))] for _ in range(n)]
     return {"values": vals, "labels": labels, "labels_as_array": draw(st.booleans()),
             "comment": draw(st.sampled_from(["", "", "a short comment", "a much longer comment " * 6])),
-            "equal_length": draw(st.booleans()), "name_id": draw(st.integers(0, 2))}
+            "equal_length": draw(st.booleans()), "name_id": draw(st.integers(0, 2)),
+            "row_labels": draw(st.sampled_from([None, None, "shifted", "reversed", "shuffled"]))}
 
 
 def subchecks():
     return [
-        SubCheck("ts_roundtrip", oracle_roundtrip, rt_cases(), quick=600, thorough=10000, shards_quick=6, shards_thorough=16),
+        SubCheck("ts_roundtrip", oracle_roundtrip, rt_cases(), quick=2000, thorough=10000, shards_quick=6, shards_thorough=16),
         SubCheck("formats_agree", oracle_formats, enumerate_cases=lambda tier: [{"i": i} for i in range(len(FORMAT_SETS))],
                  shards_quick=3, shards_thorough=3, exhaustive=True),
         SubCheck("loader_splits", oracle_loaders, enumerate_cases=lambda tier: [{"i": i} for i in range(len(LOADERS))],
